@@ -423,6 +423,13 @@ def b58_aliases(s, cap=3):
             for bad in ("0", "O", "l", " "):
                 out.append(("digit pair %r rewritten as next digit + %r (value -1)" % (s[i:i + 2], bad), s[:i] + _B58[_B58.index(s[i]) + 1] + bad + s[i + 2:]))
             k += 1
+    # a digit written as the character whose CODE equals the digit's value (' ' .. '0' are codes 32..48)
+    k = 0
+    for i in range(lead, len(s)):
+        v = _B58.index(s[i])
+        if 32 <= v <= 48 and k < cap:
+            out.append(("digit %r at %d written as the character with code %d" % (s[i], i, v), s[:i] + chr(v) + s[i + 1:]))
+            k += 1
     # a zero digit replaced by a character that is not a digit at all (value 0)
     k = 0
     for i in range(lead, len(s)):
